@@ -4,7 +4,8 @@
    every possible way; the device, network server and application server are the independent
    definitions of module JoinProc.  Encryption terms cancel (aes(k, aesd(k, x)) = x), CMAC terms are
    injective.  Invariants on every finished transaction:
-     ResultCode  UnknownDevEUI / MICFailed (join-request only) / Success
+     ResultCode  UnknownDevEUI / MICFailed (join-request only) / Other (storage fault) / Success
+     Mirror      every answer, error answers included, carries the request's ids swapped
      Usable      the device decrypts the answer, accepts its MIC and finds the requested fields
      KeysAgree   keys derived by the device = keys carried in the answer (after unwrapping)
      Isolation   a transaction's answer depends only on its own request (no cross-talk in any interleaving) *)
@@ -20,7 +21,8 @@ J == INSTANCE JoinProc WITH CMACf <- SymCMAC, AESf <- SymAES, AESDf <- SymAESD, 
 
 Txn == {1, 2}
 Kinds == {"join", "rejoin1"}
-Scen == [kind : Kinds, optneg : BOOLEAN, micok : BOOLEAN, known : BOOLEAN, wrapped : BOOLEAN]
+Faults == {"none", "devkeys", "kek"}          \* a storage callback of the server fails (device keys / KEK or AS-KEK label lookups)
+Scen == [kind : Kinds, optneg : BOOLEAN, micok : BOOLEAN, known : BOOLEAN, wrapped : BOOLEAN, fault : Faults]
 \* request of transaction t under scenario s (all identifiers depend on t: no accidental sharing)
 Req(t, s) == [kind |-> s.kind, nwkkey |-> <<"NwkKey", t>>, appkey |-> <<"AppKey", t>>, deveui |-> <<t, 1>>, joineui |-> <<t, 2>>, netid |-> <<t, 3>>,
               devnonce |-> 256 * t + 7, jn3 |-> <<t, 9, 9>>, devaddr |-> <<t, 4>>, dl |-> <<s.optneg, t>>, rxdelay |-> t, cflist |-> <<>>,
@@ -31,11 +33,17 @@ VARIABLES scen, stage, ctx, ans
 vars == <<scen, stage, ctx, ans>>
 None == [none |-> TRUE]
 Init == /\ scen \in [Txn -> Scen]
-        /\ stage = [t \in Txn |-> 0] /\ ctx = [t \in Txn |-> None] /\ ans = [t \in Txn |-> None]
+        /\ stage = [t \in Txn |-> -1] /\ ctx = [t \in Txn |-> None] /\ ans = [t \in Txn |-> None]
 
 Finish(t, code, body) == /\ stage' = [stage EXCEPT ![t] = 5]
                          /\ ans' = [ans EXCEPT ![t] = [code |-> code, txid |-> Req(t, scen[t]).txid, sender |-> Req(t, scen[t]).receiver,
                                                        receiver |-> Req(t, scen[t]).sender, body |-> body]]
+\* the handler's lookups precede the task pipeline: device keys first (unknown device / storage fault), then the KEKs
+Lookup(t) == /\ stage[t] = -1
+             /\ IF scen[t].fault = "devkeys" THEN Finish(t, "Other", None) /\ UNCHANGED <<scen, ctx>>
+                ELSE IF ~scen[t].known THEN Finish(t, "UnknownDevEUI", None) /\ UNCHANGED <<scen, ctx>>
+                ELSE IF scen[t].fault = "kek" THEN Finish(t, "Other", None) /\ UNCHANGED <<scen, ctx>>
+                ELSE stage' = [stage EXCEPT ![t] = 0] /\ UNCHANGED <<scen, ctx, ans>>
 Context(t) == /\ stage[t] = 0
               /\ IF ~scen[t].known THEN Finish(t, "UnknownDevEUI", None) /\ UNCHANGED <<scen, ctx>>
                  ELSE /\ stage' = [stage EXCEPT ![t] = 1] /\ ctx' = [ctx EXCEPT ![t] = [req |-> Req(t, scen[t])]] /\ UNCHANGED <<scen, ans>>
@@ -60,12 +68,12 @@ Answer(t) ==
      IN  Finish(t, "Success", [phy |-> SymAESD(key, <<payload, mic>>),
                                keys |-> [n \in DOMAIN ks |-> Wrap(t, ks[n], IF n = "AppSKey" THEN "as" ELSE "ns")]])
   /\ UNCHANGED <<scen, ctx>>
-Next == \E t \in Txn : Context(t) \/ Mic(t) \/ Nonce(t) \/ Keys(t) \/ Answer(t)
+Next == \E t \in Txn : Lookup(t) \/ Context(t) \/ Mic(t) \/ Nonce(t) \/ Keys(t) \/ Answer(t)
 
 Done(t) == stage[t] = 5
 Unwrapped(t, k) == IF scen[t].wrapped THEN k[3] ELSE k
 ResultCode == \A t \in Txn : Done(t) =>
-   ans[t].code = (IF ~scen[t].known THEN "UnknownDevEUI" ELSE IF scen[t].kind = "join" /\ ~scen[t].micok THEN "MICFailed" ELSE "Success")
+   ans[t].code = (IF scen[t].fault = "devkeys" THEN "Other" ELSE IF ~scen[t].known THEN "UnknownDevEUI" ELSE IF scen[t].fault = "kek" THEN "Other" ELSE IF scen[t].kind = "join" /\ ~scen[t].micok THEN "MICFailed" ELSE "Success")
 Mirror == \A t \in Txn : Done(t) => ans[t].txid = 100 + t /\ ans[t].sender = <<"js", t>> /\ ans[t].receiver = <<"ns", t>>
 Usable == \A t \in Txn : (Done(t) /\ ans[t].code = "Success") =>
    LET r == Req(t, scen[t])  on == Effective(scen[t])
